@@ -34,7 +34,7 @@ theorem vals_le_cap {ch : Cache V} (h : Inv ch) (n : Nat) (hc : ch.cap = some n)
 theorem inv_empty (cap : Option Nat) : Inv (⟨cap, [], []⟩ : Cache V) :=
   ⟨List.nodup_nil, by simp, by simp, by simp⟩
 
-private theorem filter_map_nodup {l : List (Path × (V × V))} (h : (l.map (·.1)).Nodup) (f : Path × (V × V) → Bool) :
+theorem filter_map_nodup {l : List (Path × (V × V))} (h : (l.map (·.1)).Nodup) (f : Path × (V × V) → Bool) :
     ((l.filter f).map (·.1)).Nodup :=
   (List.Nodup.sublist ((List.filter_sublist).map _) h)
 
